@@ -12,7 +12,7 @@ import (
 
 func main() {
 	keep := map[string]bool{"apply-out-of-order": true, "committed-entry-not-applied": true, "acked-write-missing": true,
-		"duplicate-offset": true, "harness-setup": true}
+		"duplicate-offset": true, "harness-setup": true, "follower-state-not-fold-of-log": true}
 	os.Exit(pipeh.Main("C07", os.Getenv("VERIF_STAGE2") != "", keep,
 		"every schedule of writers, WAL sync thread, follower cursors and ack receivers with at most max_dev non-default scheduling choices on the real leader controller; every batch commit of the commit-offset record observed at the kv.Factory seam must be previous+1 (in order, exactly once) and every committed entry must be applied"))
 }
